@@ -564,6 +564,22 @@ class Exec:
         if isinstance(node.value, ast.Call) and isinstance(node.value.func, ast.Attribute):
             f = node.value.func
             if isinstance(f.value, ast.Name) and f.value.id in st.env:
+                cargs = node.value.args
+                if len(cargs) == 1 and isinstance(cargs[0], ast.Call) and self.is_contract_call(cargs[0], st):
+                    # xs.append(g(...)) with g under contract: the call may split the path (normal return / raise)
+                    for kind, st2, v in self.eval_paths(cargs[0], st):
+                        if kind == "raise":
+                            yield ("raise", st2, v)
+                            continue
+                        base = st2.env[f.value.id]
+                        if f.attr in ("append", "extend", "insert"):
+                            self.check_unaliased(f.value.id, st2, node)
+                        new = self.mutating_method(base, f.attr, [v], st2, node)
+                        if new is None:
+                            raise Unsupported(f"method .{f.attr} on {base!r} line {node.lineno}")
+                        st2.env[f.value.id] = new
+                        yield ("fall", st2, None)
+                    return
                 base = st.env[f.value.id]
                 args = [self.eval(a, st) for a in node.value.args]
                 if f.attr in ("append", "reverse", "extend", "pop", "insert", "remove", "sort", "clear", "update"):
@@ -580,12 +596,15 @@ class Exec:
                 yield ("fall", st2, None)
 
     def mutating_method(self, base, attr, args, st, node):
-        if attr == "append" and isinstance(base, SeqV):
+        if attr == "append" and isinstance(base, SeqV) and (isinstance(args[0], (Opt, BoolV)) or not base.t.eq(S.c_empty)):
             return SeqV(S.f_append(base.t, S.as_int(self.need_int(args[0], st, node))), base.kind)
         if attr == "append" and isinstance(base, RowsV) and isinstance(args[0], TupV) and len(args[0].items) == len(base.comps):
             return RowsV([S.f_append(c, S.as_int(self.need_int(x, st, node))) for c, x in zip(base.comps, args[0].items)], base.kind)
         if attr == "append" and isinstance(base, TupV) and base.kind == "list":
             return TupV(base.items + [args[0]], "list")
+        if attr == "append" and isinstance(base, SeqV) and base.kind == "list" and base.t.eq(S.c_empty) \
+                and not isinstance(args[0], (Opt, BoolV)):
+            return TupV([args[0]], "list")  # the empty list literal receiving a non-int: a fixed-length heterogeneous list
         if attr == "reverse" and isinstance(base, SliceSeqV):
             self.nfresh += 1
             out = SliceSeqV.fresh(f"rev!{self.nfresh}", base.n)
@@ -688,6 +707,9 @@ class Exec:
                 self.oblige(st, "safe", "index", z3.And(-n <= idx, idx < n), node.lineno)
                 idx = z3.If(idx < 0, idx + n, idx)
                 st.env[tgt.value.id] = SeqV(S.f_update(base.t, idx, S.as_int(self.need_int(v, st, node))), "list")
+            elif isinstance(base, ObjV):
+                # `obj[key] = value` on an opaque record: an effect, recorded in the path's ghost event log
+                st.env["__events__"] = tuple(st.env.get("__events__", ())) + (("store", tgt.value.id, base, k, v, node.lineno),)
             else:
                 raise Unsupported(f"subscript store on {base!r} line {node.lineno}")
         else:
@@ -749,8 +771,19 @@ class Exec:
         yield ("fall", st, None)
 
     def stmt_Try(self, node, st):
-        if node.finalbody or node.orelse:
-            raise Unsupported(f"try/finally/else line {node.lineno}")
+        if node.orelse:
+            raise Unsupported(f"try/else line {node.lineno}")
+        if node.finalbody:
+            if node.handlers:
+                raise Unsupported(f"try/except/finally line {node.lineno}")
+            # try/finally: the final block runs after every outcome of the body, which then continues as it was
+            for kind, st2, payload in self.exec_block(node.body, st):
+                for k2, st3, p2 in self.exec_block(node.finalbody, st2):
+                    if k2 == "fall":
+                        yield (kind, st3, payload)
+                    else:
+                        yield (k2, st3, p2)
+            return
         handlers = {}
         for h in node.handlers:
             if h.name is not None:
@@ -1258,6 +1291,16 @@ class Exec:
         lid = self.loop_id(node, "while")
         spec = self.c.loops.get(lid)
         if spec is None:
+            # a loop whose test is false outright under this specialisation (constant positions in fixed-length tuples)
+            # never runs: dropped like an unreachable branch
+            try:
+                t0 = z3.simplify(self.eval_bool(node.test, st.copy()))
+            except (Unsupported, _NotStatic):
+                t0 = None
+            if t0 is not None and z3.is_false(t0):
+                self.note_drop(node.body, "loop test is false under the declared parameter types")
+                yield ("fall", st, None)
+                return
             raise Unsupported(f"loop {lid} at line {node.lineno} of {self.c.qualname} has no invariant in the contract")
         entry = st
         v0 = NS(dict(entry.env), self.ghosts)
